@@ -14,6 +14,12 @@ The operations: insertRule (any index, object or text, `inOrder` or not), add, i
 encoding, cssText of the sheet, namespaces[p] = u, del namespaces[p], and insertRule / insertRule(CSSRuleList) /
 deleteRule / cssText (complete texts, and texts with trailing content or an unclosed block) on the nested list at any
 path; raise or log-only mode; accepted, refused or interrupted.
+
+T9.5 (wave 3) extends the object graph to declaration blocks and properties (`Model/SheetBlocks.lean`, a heap with
+object identities; helpers `Lemmas/SheetBlocks.lean`): `rule.style = …`, `rule.cssText`, `style.cssText`, `setProperty`,
+item assignment, `removeProperty`. The last section states what survives and what breaks when objects that are already
+contained are handed in again or the list objects are edited around the DOM methods (`Model/SheetRaw.lean`): these
+are excluded by `DOpOK` and listed as known findings.
 -/
 namespace CssVerif.C09
 open CssVerif.SheetEdit CssVerif.SheetEdit.Wit
